@@ -55,12 +55,17 @@ def E(k, name, tg=None, nabs=False, tabs=False):
 def followups(cases):
     """For every enumerated tree that holds a symbolic link resolving outside of the working directory: the same
     sequence followed by one more entry / push that goes at or through that link (no model prediction attached)."""
-    out, seen = [], set()
-    for c in cases:
+    out, seen, reps = [], set(), {}
+    for c in sorted(cases, key=lambda c: len(c["hist"])):
         if c["failed"] or not c.get("risk"):
             continue
-        for p in c["risk"]:
+        for p, how, where in c["risk"]:
             if p[:1] != ["w"]:
+                continue
+            # the escape depends on where the link goes: a few representative trees per (link, resolution)
+            key = json.dumps([p, how, where])
+            reps[key] = reps.get(key, 0) + 1
+            if reps[key] > 4:
                 continue
             rel = p[1:]
             more = [E("reg", rel), E("dir", rel), E("dir", rel + ["x", "y"]), E("dir", rel + ["x"]), E("reg", rel + ["x"]),
@@ -101,10 +106,7 @@ def run(ctx, replay=None):
             if json.dumps(c["hist"]) not in seen:
                 c["id"] = len(cases) + 1
                 cases.append(c)
-        fu = followups([c for c in cases if len(c["hist"]) <= 3])
-        if ctx.quick and len(fu) > 5000:
-            import random
-            fu = random.Random(ctx.seed).sample(fu, 5000)
+        fu = followups(cases)
         for c in fu:
             c["id"] = len(cases) + 1
             cases.append(c)
